@@ -7,8 +7,9 @@ SPEC = {
                  "operation + linear-scan comparison of every query, under ASan/LSan/UBSan",
     "rule": "exh: every insertion sequence (with repetition: duplicate points, coordinate ties) of <=4 (quick) / <=6 "
             "(thorough) points of the 3x3 grid {0,1,2}^2 into KDTree<Vector2<int64_t>,int64_t>, values distinct (index) "
-            "and, for <=4 points, also constant; then (a) every erase order, (b) every subset of visit positions erased "
-            "by a begin()/++/erase_advance sweep, (c) destruction after every erase-order prefix (<=4 quick / <=5 thorough). "
+            "and, for <=3 (quick) / <=4 (thorough) points, also constant; then (a) every erase order, "
+            "(b) every subset of visit positions erased by a begin()/++/erase_advance sweep, (c) destruction after every "
+            "erase-order prefix (<=4 points). "
             "rnd: seeded 300-op histories (insert biased to ties/duplicates, erase present, erase absent, erase_advance "
             "sweeps; grow/balanced/phased fill-drain profiles) on 2-D grids of side 2..12 and 3-D grids of side 2..5. "
             "destroy: seven empty-tree destruction scenarios, each in a forked child. "
@@ -27,10 +28,12 @@ SPEC = {
     "stages": [
         {"name": "c13", "variant": "asan", "shards": (1, 1), "args": ["only=destroy"], "tag": "c13-destroy"},
         {"name": "c13", "variant": "asan", "shards": (16, 16), "args": ["only=exh"], "tag": "c13-exh"},
-        # 6-point sequences: 9^6 x 720 erase orders = 3.8e8 histories; ~14000 CPU-s under ASan, ~1800 CPU-s with the
-        # -O2 UBSan-only build.  Memory monitors (ASan/LSan) are on for everything up to 5 points and for rnd.
-        {"name": "c13", "variant": "ubsan2", "shards": (16, 16), "args": ["only=exh", "kmin=6", "k=6"], "tag": "c13-exh6",
-         "tiers": ["thorough"]},
+        # 6-point sequences: 9^6 x 720 erase orders = 3.8e8 histories cost ~14000 CPU-s under ASan and ~1800 CPU-s with
+        # the -O2 UBSan-only build (measured on 1/2000 slices), so this stage uses ubsan2.  Memory monitors (ASan/LSan)
+        # are on for everything up to 5 points and for rnd.  (`permsample=N` would run only 1/N of the erase orders of
+        # every sequence, selected by (order index + 31*sequence index + seed) % N == 0; not used.)
+        {"name": "c13", "variant": "ubsan2", "shards": (16, 16), "args": ["only=exh", "kmin=6", "k=6"],
+         "tag": "c13-exh6", "tiers": ["thorough"]},
         {"name": "c13", "variant": "asan", "shards": (16, 16), "args": ["only=rnd"], "tag": "c13-rnd"},
     ],
     "min_evaluations": 1000000,
@@ -48,10 +51,10 @@ SPEC = {
     ],
     "exhaustive": {"quick": False, "thorough": False},
     "exhaustive_note": "Enumerated completely: quick - all 7381 insertion sequences of 0..4 points of the 3x3 grid x all "
-                       "erase orders (162,009 histories per value scheme) x all 2^k erase_advance visit masks x all erase-order "
-                       "prefixes for destruction; thorough - the same for 0..5 points (asan) and for 6 points "
-                       "(531,441 sequences x 720 orders = 382,637,520 histories, 34,012,224 sweeps; -O2 UBSan build, no ASan). "
-                       "Random histories are sampled, hence exhaustive=false overall.",
+                       "erase orders (162,009 histories with distinct values) x all 2^k erase_advance visit masks x all "
+                       "erase-order prefixes for destruction; thorough - the same for 0..5 points (66,430 sequences, 7,247,889 "
+                       "erase-order histories with distinct values; asan). 6 points: all 531,441 sequences x all 720 erase orders "
+                       "(382,637,520 histories) x all 64 erase_advance masks (34,012,224 sweeps); -O2 UBSan build, no ASan. Random histories are sampled, hence exhaustive=false overall.",
     "assumptions": ASSUME_COMMON + [
         "private members are reached with `#define private public` around the single KDTree.hh include (header-only "
         "template; every std header it uses is included before); no phosg source is modified",
